@@ -10,7 +10,7 @@ from ..core import AnalysisError, Ctx, fold, norm
 from ..pyfacts import dotted, calls_in, guards_at, terminates, bind_args, walk_guarded
 
 META = {
-    "explanation": "Parser.load_includes is evaluated by PAI on a virtual file system (open_file replaced by a recorder over a table of texts whose lines are opaque atoms, os.path functions by term builders): each INCLUDE line is replaced in place by its file's expansion, relative names resolve against the directory of the ROOT file at every depth, absolute names are used as given, the working directory stands in when no file name is known (I2); a chain of exactly 5 nested files expands, a sixth level raises ValueError before its file is read, and a file reached again one level deeper is bounded by its own depth (I1, together with the structural counter rules: default 0, +1 at the single recursive call, nothing but text / file name / counter travels between levels, the recursive result is stored under the index of its own line, no outside caller passes the counter); every exception handler on the path re-raises (I3); the line list is replaced index-stably and the text is re-joined with exactly the separator it was cut with (I4); expansion happens only under expand_includes and INCLUDE is a repeated key otherwise (I5); the helper that reads the file name off an INCLUDE line (found by role) is evaluated on INCLUDE <name> / \"<name>\" / '<name>' with and without a trailing # comment (I6).",
+    "explanation": "Parser.load_includes is evaluated by PAI on a virtual file system (open_file replaced by a recorder over a table of texts whose lines are opaque atoms, os.path functions by the real POSIX path functions with the working directory /cwd): each INCLUDE line is replaced in place by its file's expansion, relative names resolve against the directory of the ROOT file at every depth, absolute names are used as given, the working directory stands in when no file name is known or the root is named without a directory part (main.map, ./main.map, maps/main.map) (I2); a chain of exactly 5 nested files expands, a sixth level raises ValueError before its file is read, and a file reached again one level deeper is bounded by its own depth (I1, together with the structural counter rules: default 0, +1 at the single recursive call, no outside caller passes the counter; what else travels between nesting levels and how the expansion is stored is judged by the evaluated scenarios only); every exception handler on the path re-raises (I3); the line list is replaced index-stably and the text is re-joined with exactly the separator it was cut with (I4); expansion happens only under expand_includes and INCLUDE is a repeated key otherwise (I5); the helper that reads the file name off an INCLUDE line (found by role) is evaluated on INCLUDE <name> / \"<name>\" / '<name>' with and without a trailing # comment (I6).",
     "level_text": "Necessary structural conditions decided for all inputs: bounded recursion depth (<= 5 expansions, so cyclic includes terminate with ValueError), root-relative path resolution, error propagation and index stability of the line substitution. Equality with textual substitution for every cut point is not decided (needs files).",
     "level_note": "Trusted: os.path functions, str.split/join inverse on the same separator. A line-oriented scan is assumed (INCLUDE on its own line, as the property states).",
     "technique": "AST dataflow / dominance rules on the recursion counter and path arguments + abstract interpretation of the file-name extraction",
